@@ -31,8 +31,10 @@ def scenarios(tier):
                 if len(set(blocks)) == 2 and blocks.count("B") < 1:
                     continue
                 for hp in [p for p in itertools.product((0, 1), repeat=k) if p[0] == 0]:
-                    for cover in ("all", "one-uncovered", "set-untagged"):
+                    for cover in ("all", "one-uncovered", "set-untagged", "chromosome-untagged"):
                         if cover == "set-untagged" and len(set(blocks)) < 2:
+                            continue
+                        if cover == "chromosome-untagged" and (k != 3 or len(set(blocks)) > 1):
                             continue
                         yield {"seed": seed, "types": list(tv), "blocks": list(blocks), "hp": list(hp), "cover": cover}
 
@@ -43,13 +45,20 @@ def build_world(sc):
     for i, t in enumerate(sc["types"]):
         vs.append({"pos": 60 + 45 * i, "kind": t, "len": 2 if t in ("INS", "DEL", "MNP") else 1})
     world = {"seed": sc["seed"], "chroms": [{"name": "chrA", "length": 60 + 45 * k + 70, "variants": vs}], "samples": ["S1"], "haps": {"S1": {"chrA": [[a, 1 - a] for a in sc["hp"]]}}, "reads": []}
+    chroms = ["chrA"]
+    if sc["cover"] == "chromosome-untagged":
+        # a second chromosome that is phased by `phase` but has no alignment at all in the tagged BAM
+        world["chroms"].append({"name": "chrB", "length": 60 + 45 * k + 70, "variants": [dict(v) for v in vs]})
+        world["haps"]["S1"]["chrB"] = [[a, 1 - a] for a in sc["hp"]]
+        chroms.append("chrB")
     # reads: per block, reads covering the whole block on both haplotypes (never two blocks)
-    for b in sorted(set(sc["blocks"])):
-        idx = [i for i, x in enumerate(sc["blocks"]) if x == b]
-        if len(idx) < 2:
-            continue
-        for h in (0, 1):
-            world["reads"].append({"sample": "S1", "chrom": "chrA", "hap": h, "segs": [[idx[0], idx[-1], 7, 7]], "n": 2, "block": b})
+    for c in chroms:
+        for b in sorted(set(sc["blocks"])):
+            idx = [i for i, x in enumerate(sc["blocks"]) if x == b]
+            if len(idx) < 2:
+                continue
+            for h in (0, 1):
+                world["reads"].append({"sample": "S1", "chrom": c, "hap": h, "segs": [[idx[0], idx[-1], 7, 7]], "n": 2, "block": b})
     return world
 
 
@@ -70,6 +79,27 @@ def partial_unphase(text, keep):
                 d["GT"] = "/".join(sorted(d["GT"].split("|")))
             if "PS" in d:
                 d["PS"] = "."
+            t[9] = ":".join(d.get(k, ".") for k in fmt)
+        out.append("\t".join(t))
+        ri += 1
+    return "\n".join(out) + "\n"
+
+
+def foreign_rephase(text, idx):
+    """the chosen (phased) records get the phase of another source: own phase set 9001, reversed haplotype numbering"""
+    out = []
+    ri = 0
+    for line in text.splitlines():
+        if line.startswith("#") or not line:
+            out.append(line)
+            continue
+        t = line.split("\t")
+        if ri in idx:
+            fmt = t[8].split(":")
+            d = dict(zip(fmt, t[9].split(":")))
+            if "|" in d.get("GT", ""):
+                d["GT"] = "|".join(reversed(d["GT"].split("|")))
+                d["PS"] = "9001"
             t[9] = ":".join(d.get(k, ".") for k in fmt)
         out.append("\t".join(t))
         ri += 1
@@ -126,6 +156,8 @@ def judge(sc):
         w2 = build_world(sc)
         if sc["cover"] == "set-untagged":
             w2["reads"] = [r for r in w2["reads"] if r["block"] != "B"]
+        elif sc["cover"] == "chromosome-untagged":
+            w2["reads"] = [r for r in w2["reads"] if r["chrom"] == "chrA"]
         else:
             # shorten the reads of block A so that its last variant is not covered
             for r in w2["reads"]:
@@ -151,22 +183,31 @@ def judge(sc):
             t = dict(s.get_tags())
             tags[s.query_name] = (t.get("HP"), t.get("PS"))
     # which records are covered by a tagged read (positions inside the aligned span)
-    rec_pos = [rec["pos"] for rec in parsed0["records"]]
+    rec_pos = [(rec["chrom"], rec["pos"]) for rec in parsed0["records"]]
     cov_ps = {ri: set() for ri in range(len(rec_pos))}
     with pysam.AlignmentFile(tagged) as f:
         for s in f:
             t = dict(s.get_tags())
             if "PS" not in t:
                 continue
-            for ri, p in enumerate(rec_pos):
-                if s.reference_start < p - 1 and p + 3 < s.reference_end:
+            for ri, (c, p) in enumerate(rec_pos):
+                if s.reference_name == c and s.reference_start < p - 1 and p + 3 < s.reference_end:
                     cov_ps[ri].add(t["PS"])
     nontrivial = False
     # --- transitions 3+4: (partial) unphase, haplotagphase, for every subset left phased
     phased_idx = [ri for ri, (g, _) in orig.items() if g and "|" in g]
+    # on the untagged chromosome everything stays phased; subsets are formed on chrA
+    fixed_keep = tuple(ri for ri in phased_idx if rec_pos[ri][0] != "chrA")
+    phased_idx = [ri for ri in phased_idx if rec_pos[ri][0] == "chrA"]
+    variants_of_history = []
     for r in range(len(phased_idx) + 1):
         for keep in itertools.combinations(phased_idx, r):
-            hist = ["phase", "haplotag", f"unphase-all-but-{list(keep)}", "haplotagphase"]
+            variants_of_history.append((keep + fixed_keep, False))
+            if 1 <= r <= 2:
+                variants_of_history.append((keep + fixed_keep, True))
+    for keep, foreign in variants_of_history:
+        if True:
+            hist = ["phase", "haplotag", f"unphase-all-but-{list(keep)}" + ("-rephased-by-another-source" if foreign else ""), "haplotagphase"]
             inp = os.path.join(d, "hp_in.vcf")
             if not keep:
                 try:
@@ -175,8 +216,11 @@ def judge(sc):
                     viols.append(V("error", f"unphase failed: {e}", hist))
                     continue
             else:
+                txt = partial_unphase(text0, set(keep))
+                if foreign:
+                    txt = foreign_rephase(txt, set(k_ for k_ in keep if rec_pos[k_][0] == "chrA"))
                 with open(inp, "w") as f:
-                    f.write(partial_unphase(text0, set(keep)))
+                    f.write(txt)
             trans += 1
             inp_gz = inp + ".gz"
             pysam.tabix_compress(inp, inp_gz, force=True)
